@@ -192,8 +192,15 @@ def check_rt(case, rec=None):
         perm = rng.permutation(fr.nnz)
         vals = data[mask]
         other = np.arange(fr.nnz, dtype=np.int32) * 3
-        fu = sparseframe.sparse_frame(ei[perm].astype(np.uint16), ej[perm].astype(np.uint16), mask.shape,
-                                      pixels={"intensity": vals[perm].copy(), "tag": other[perm].copy()})
+        if vals.dtype == np.uint16 and case["spec"]["seed"] % 2:
+            # coordinates and values as the three columns of one (nnz, 3) table (a record per pixel): interleaved in
+            # memory, no element shared
+            tab_ = np.ascontiguousarray(np.column_stack([ei[perm], ej[perm], vals[perm]]).astype(np.uint16))
+            fu = sparseframe.sparse_frame(tab_[:, 0], tab_[:, 1], mask.shape,
+                                          pixels={"intensity": tab_[:, 2], "tag": other[perm].copy()})
+        else:
+            fu = sparseframe.sparse_frame(ei[perm].astype(np.uint16), ej[perm].astype(np.uint16), mask.shape,
+                                          pixels={"intensity": vals[perm].copy(), "tag": other[perm].copy()})
         code = cImageD11.sparse_is_sorted(fu.row, fu.col)
         expcode = first_offence(fu.row.astype(int), fu.col.astype(int))
         if code != expcode:
